@@ -214,9 +214,13 @@ func evalObs(a *Analysis, rule string, obs []*Observation, allowed func(o *Obser
 				ob.Facts = append(ob.Facts, "offending: "+s)
 			}
 		}
+		// sorted: the evidence must not depend on map iteration order
+		var extra []string
 		for k, v := range o.Extra {
-			ob.Facts = append(ob.Facts, k+": "+v)
+			extra = append(extra, k+": "+v)
 		}
+		sort.Strings(extra)
+		ob.Facts = append(ob.Facts, extra...)
 		out = append(out, ob)
 	}
 	return out
